@@ -102,11 +102,11 @@ Proof.
 Qed.
 Print Assumptions C05_ekf_process_model.
 
-(* Complementary filter, FULL convergence: for every motionless history (constant acc, mag != 0), every gain in [0,1), every
+(* Complementary filter, FULL convergence: for every motionless history (constant acc != 0, mag != 0), every gain in [0,1), every
    gyro history bounded by eps, the iteration of the regenerated blend step stays defined and each Euler angle approaches the
    accelerometer/magnetometer angle m_i geometrically:  |e_N| <= gain^N |e_0| + gain dt eps / (1 - gain) *)
 Theorem C05_complementary_converges : forall ax ay az mx my mz dt gamma eps,
-  0 < mx*mx + my*my + mz*mz -> 0 <= gamma < 1 -> 0 <= dt -> 0 <= eps ->
+  0 < ax*ax + ay*ay + az*az -> 0 < mx*mx + my*my + mz*mz -> 0 <= gamma < 1 -> 0 <= dt -> 0 <= eps ->
   exists m0 m1 m2, C05_compl_am_R ax ay az mx my mz = Val [m0;m1;m2] /\
   forall (gs : list (R * R * R)) a b c,
   Forall (fun g => Rabs (fst (fst g)) <= eps /\ Rabs (snd (fst g)) <= eps /\ Rabs (snd g) <= eps) gs ->
@@ -115,8 +115,8 @@ Theorem C05_complementary_converges : forall ax ay az mx my mz dt gamma eps,
     Rabs (b' - m1) <= gamma ^ length gs * Rabs (b - m1) + gamma * dt * eps / (1 - gamma) /\
     Rabs (c' - m2) <= gamma ^ length gs * Rabs (c - m2) + gamma * dt * eps / (1 - gamma).
 Proof.
-  intros ax ay az mx my mz dt gamma eps Hm Hg Hdt He.
-  destruct (run_is_iter ax ay az mx my mz dt gamma Hm) as (m0 & m1 & m2 & Ham & Hrun).
+  intros ax ay az mx my mz dt gamma eps Ha Hm Hg Hdt He.
+  destruct (run_is_iter ax ay az mx my mz dt gamma Ha Hm) as (m0 & m1 & m2 & Ham & Hrun).
   exists m0, m1, m2. split; [exact Ham|]. intros gs a b c HF.
   do 3 eexists. split; [apply Hrun|].
   assert (L : forall (f : R * R * R -> R), length (map f gs) = length gs) by (intros; apply map_length).
